@@ -133,3 +133,33 @@ pub fn s5(ctx: &Ctx) {
         ctx.nontrivial();
     }
 }
+
+/// S6: extension attributes of every catalogue type at the first / last prototype position,
+/// hooked capacity {1, 3}, npoints {0, 1, 4}, one or two registered extensions
+pub fn s6(ctx: &Ctx) {
+    let types = cat::types();
+    let ti = ctx.pick("type", types.len());
+    let first = ctx.pick("extension-record-first", 2) == 1;
+    let c = [1usize, 3][ctx.pick("cap", 2)];
+    let n = [0usize, 1, 4][ctx.pick("npoints", 3)];
+    let two = ctx.pick("two-extensions", 2) == 1;
+    let mut proto = cat::xyz(cat::F32);
+    let e = cat::ext_rec("ext", "attr", types[ti].clone());
+    if first {
+        proto.insert(0, e);
+    } else {
+        proto.push(e);
+    }
+    let mut ops = vec![Op::Ext("ext".into(), "http://example.com/ext".into())];
+    if two {
+        ops.insert(0, Op::Ext("other".into(), "http://example.com/other".into()));
+        proto.push(cat::ext_rec("other", "cartesianX", cat::F64));
+    }
+    let mut cl = cloud(proto, n, ti as u64 + 3);
+    cl.cap = Some(c);
+    ops.push(Op::Cloud(cl));
+    let p = Program { guid: "g".into(), ops, ..Default::default() };
+    if roundtrip(ctx, &p, P).is_some() && n > 0 {
+        ctx.nontrivial();
+    }
+}
